@@ -409,7 +409,7 @@ CHECKS["C19"] = dict(
          "(Listeners, SharedDelivery) the concurrent listen/close plans of C13 and the delivery state machine of C12; (Collectors) C17's workers x scrapers workload; (TCPService) C15's concurrent connection mixes. "
          "Every workload counts as non-trivial; distinct = canonical case JSON.",
     assumptions=["the race detector only sees interleavings that occur: dynamic, not exhaustive"],
-    units=[unit("props-race", ["KeyList", "ReplayCache", "ReplayCacheZero", "NAT", "Listeners", "SharedDelivery", "Collectors", "TCPService", "PacketService"], "C19", crash_is_violation=True, wedge_is_violation=True, timeout=(400, 2400))],
+    units=[unit("props-race", ["KeyList", "ReplayCache", "ReplayCacheZero", "ReplayRotation", "NAT", "Listeners", "SharedDelivery", "Collectors", "TCPService", "PacketService"], "C19", crash_is_violation=True, wedge_is_violation=True, timeout=(400, 2400))],
 )
 
 # ---------------------------------------------------------------------------------------------------
